@@ -11,6 +11,7 @@
 //!   run <id>                                          resume that validation up to its next store read / its end
 //!   dump                                              local store content
 //!   sput <max> <len> <hdr> <existing>                 direct `RecordStore::put` (see sput.rs)
+//!   tamper <store> <path> <kind> <rk> <contentA> <pay> <contentB> <node> <variant>   structure-aware wire tampering (wire.rs)
 //!   close <r> <peers by distance>                     real `SwarmDriver` close set + upload paying the rank-r peer (closepeers.rs)
 //! path c|r; kind chunkp chunk padp pad txp tx regp reg; content C<id> | S<owner>.<n>.<v|w|n> |
 //! T<owner>.<t>.<v|i>[,...] | T- | R<id>.<g|a|b>.<ops|-> (op = <id><v|u|f|s|z>: valid / unpermitted writer /
@@ -31,6 +32,8 @@ mod gen;
 mod sput;
 #[path = "validate/stub.rs"]
 mod stub;
+#[path = "validate/wire.rs"]
+mod wire;
 #[path = "validate/world.rs"]
 mod world;
 
@@ -241,6 +244,46 @@ fn oracle_after(ctx: &Ctx, d: &Delivery, res: &str, before: &Store, out: &mut Ou
     }
 }
 
+/// Oracle for a tampered delivery (no reference to the model, nor to what the tampering was): whatever the node
+/// puts under key K is content whose own owner / bytes hash to K (read from the stored bytes with a generic
+/// decoder + sha3), is validly signed by that owner, and neither regresses nor shrinks what was held.
+fn tamper_oracle(line: &str, res: &str, puts: &[(libp2p::kad::RecordKey, libp2p::kad::Record, Option<libp2p::kad::Record>)], out: &mut Out) {
+    if res == "panic" || res == "timeout" {
+        out.oracle_fail("no-panic", line, &format!("validation of a tampered record ended with {res}"));
+        return;
+    }
+    if res != "ok" && !puts.is_empty() {
+        out.oracle_fail("C03:rejected-stores-nothing", line, &format!("result {res} but the node put {} record(s)", puts.len()));
+    }
+    for (key, rec, prev) in puts {
+        let desc = describe(key, rec);
+        match wire::derived_names(&rec.value, &|b| sha3(b)) {
+            Some(xs) if !xs.is_empty() && xs.iter().all(|x| x.as_slice() == key.as_ref()) => {}
+            _ => out.oracle_fail("C04:stored-key-is-derived", line, &format!("record put under key {} holds {desc}: the owner / content in the stored bytes does not hash to that key", key_str(key))),
+        }
+        if desc.contains('!') || desc.contains('?') || (desc.starts_with('S') && desc.ends_with('i')) {
+            out.oracle_fail("C07:invalid-never-stored", line, &format!("content that is not validly signed by its owner stored at {}: {desc}", key_str(key)));
+        }
+        if let Some(p) = prev {
+            let pd = describe(key, p);
+            if let (Some((n, _)), Some((pn, _))) = (pad_counter(&desc), pad_counter(&pd)) {
+                if n <= pn {
+                    out.oracle_fail("C07:counter-strictly-increases", line, &format!("scratchpad counter went {pn} -> {n} at {}", key_str(key)));
+                }
+            }
+            if pd.chars().next() != desc.chars().next() && !(pd.starts_with(['R', 'A']) && desc.starts_with(['R', 'A'])) {
+                out.oracle_fail("C07:cross-kind-never-overwrites", line, &format!("{pd} held at key {} was replaced by {desc}", key_str(key)));
+            }
+            if desc.starts_with(['T', 'R', 'A']) && pd.chars().next() == desc.chars().next() {
+                let (new_ids, old_ids) = (id_set(&desc), id_set(&pd));
+                if old_ids.iter().any(|o| !new_ids.contains(o)) {
+                    out.oracle_fail("C07:sets-only-grow", line, &format!("set at {} shrank: {pd} -> {desc}", key_str(key)));
+                }
+            }
+        }
+    }
+}
+
 fn run_to_end(ctx: &mut Ctx, id: &str) {
     let mut guard = 0;
     while ctx.world.phase(id) == 1 && guard < 20 {
@@ -334,6 +377,24 @@ pub fn exec_line(ctx: &mut Ctx, line: &str, out: &mut Out) -> String {
             ctx.history.push(line.to_string());
             format!("store {}", dump_store(&ctx.world.store))
         }
+        Some("tamper") if ws.len() == 10 => {
+            // tamper <store> <path> <kind> <rk> <contentA> <pay> <contentB> <node> <variant>
+            let (Some(store), Some(mut d), Some(other), Ok(node)) = (parse_store(ws[1]), parse_delivery(&ws[2..7]), parse_content(ws[7]), ws[8].parse::<usize>()) else {
+                return "bad-op".into();
+            };
+            d.tamper = Some(Tamper { other, node, variant: ws[9].chars().next().unwrap_or('b') });
+            ctx.history = vec![line.to_string()];
+            ctx.overlapped = false;
+            ctx.world.reset(store.clone());
+            out.count(&format!("tamper:{}:{}:{}", ws[2], ws[3], ws[9]));
+            ctx.world.begin("x", d);
+            run_to_end(ctx, "x");
+            let inf = ctx.world.inflight.remove("x").expect("inflight");
+            let res = inf.done.clone().unwrap_or_else(|| "pend".into());
+            tamper_oracle(line, &res, &inf.puts, out);
+            out.count(&format!("tamper-result:{res}"));
+            fmt_out(&res, &inf.toks)
+        }
         Some("close") if ws.len() == 3 => {
             ctx.history = vec![line.to_string()];
             ctx.overlapped = false;
@@ -379,7 +440,7 @@ fn main() {
         };
         let Some(line) = line else { break };
         let o = exec_line(&mut ctx, &line, &mut out);
-        if line.starts_with("case") || line.starts_with("deliver") || line.starts_with("sput") || line.starts_with("begin") || line.starts_with("close") {
+        if line.starts_with("case") || line.starts_with("deliver") || line.starts_with("sput") || line.starts_with("begin") || line.starts_with("close") || line.starts_with("tamper") {
             out.nontrivial_case(&line);
         }
         out.line(line.clone(), o);
